@@ -2436,10 +2436,10 @@ namespace xsimd
             XSIMD_INLINE B tgamma_other(const B& a, const BB& test) noexcept
             {
                 B x = select(test, B(2.), a);
-#ifndef XSIMD_NO_INFINITIES
-                auto inf_result = (a == constants::infinity<B>());
+                // the result overflows beyond 171.7 (35.1 in single precision): such arguments, +inf included,
+                // yield +inf directly instead of running the recurrence below once per unit
+                auto inf_result = (a > B(172.));
                 x = select(inf_result, B(2.), x);
-#endif
                 B z = B(1.);
                 auto test1 = (x >= B(3.));
                 while (any(test1))
@@ -2463,11 +2463,7 @@ namespace xsimd
                     test2 = (x < B(2.));
                 }
                 x = z * tgamma_kernel<B>::compute(x - B(2.));
-#ifndef XSIMD_NO_INFINITIES
-                return select(inf_result, a, x);
-#else
-                return x;
-#endif
+                return select(inf_result, constants::infinity<B>(), x);
             }
         }
 
